@@ -64,6 +64,11 @@ class FakeAMQPServer:
             return
         msg.routing_key = routing_key
         q.ready.append(msg)
+        limit = q.arguments.get("x-max-length")
+        if limit is not None and len(q.ready) > limit:
+            # RabbitMQ's default overflow behaviour (drop-head): the oldest message leaves, through the DLX if one is declared
+            head = q.ready.pop(0)
+            self.dead_letter(q, head, loop, reason="maxlen")
         exp = msg.props.expiration
         if exp is not None:
             ms = _expiration_value(exp)
